@@ -745,7 +745,7 @@ func (interp *Interpreter) cfg(root *node, sc *scope, importPath, pkgName string
 							} else { // range
 								fi = init
 							}
-							if fi != nil && dest.ident == fi.ident {
+							if fi != nil && dest.ident == fi.ident && src.kind == identExpr && src.ident == dest.ident {
 								n.gen = nop
 								break
 							}
